@@ -1576,8 +1576,23 @@ func (e *Exec) appendBuiltin(fr *frame, c *ssa.CallCommon, args []Value) Value {
 	default:
 		e.unsupported("append source")
 	}
-	if dst.len.op != OpConst || dst.cap.op != OpConst || srcLen.op != OpConst || dst.off.op != OpConst {
-		e.unsupported("append with symbolic length or capacity")
+	if dst.len.op != OpConst || dst.cap.op != OpConst {
+		// small symbolic lengths (e.g. make([]T, len(m)) for a bounded map): split by value
+		same := dst.len == dst.cap
+		d2 := *dst
+		d2.len = e.enumSmall(dst.len, 64, "append: slice length")
+		if same {
+			d2.cap = d2.len
+		} else {
+			d2.cap = e.enumSmall(dst.cap, 64, "append: slice capacity")
+		}
+		dst = &d2
+	}
+	if srcLen.op != OpConst {
+		srcLen = e.enumSmall(srcLen, 64, "append: source length")
+	}
+	if dst.off.op != OpConst {
+		e.unsupported("append to a slice with a symbolic offset")
 	}
 	n, k, cp := int(dst.len.val), int(srcLen.val), int(dst.cap.val)
 	if k == 0 {
